@@ -39,6 +39,12 @@ Theorem c02_translated_binder_is_argument : forall fs j f, nth_error fs j = Some
   (forall j2 f2, j <> j2 -> arg_id j f <> arg_id j2 f2).
 Proof. intros. split; [apply binder_is_argument; assumption | intros; apply arg_ids_distinct; assumption]. Qed.
 
+(* ... and a message enum with ANY number of variants gets exactly one such arm per variant, in order *)
+Theorem c02_translated_one_arm_per_variant : forall l,
+  Forall (fun v : string * list value * value * string => In (snd v) six_kinds) l ->
+  calls LEG 4 "MsgVariants::emit_dispatch_legs" [variants_v l] (CVal (VArr (map arm_of_variant l))).
+Proof. exact translated_dispatch_legs. Qed.
+
 Example c02_translated_example :
   call ctx_program 2 40 "ExecCtx::from" [VCon "()" [VStr "deps"; VStr "env"; VStr "info"]] =
     Some (CVal (VRec "ExecCtx" [("deps", VStr "deps"); ("env", VStr "env"); ("info", VStr "info")])) /\
@@ -48,3 +54,4 @@ Proof. vm_compute. split; reflexivity. Qed.
 Print Assumptions c02_translated_ctx_conversions.
 Print Assumptions c02_translated_dispatch_arm.
 Print Assumptions c02_translated_binder_is_argument.
+Print Assumptions c02_translated_one_arm_per_variant.
